@@ -94,7 +94,7 @@ func HandleInvite(ctx context.Context, input HandleInviteInput) (PDU, error) {
 	}
 
 	sender, err := input.UserIDQuerier(input.RoomID, input.InviteEvent.SenderID())
-	if err != nil {
+	if err != nil || sender == nil {
 		return nil, spec.BadJSON("The event JSON contains an invalid sender")
 	}
 	verifyRequests := []VerifyJSONRequest{{
